@@ -393,7 +393,9 @@ def scenarios(tier, seed):
                     if k == kmax and (mode == 1 or col == 'b') and tier == 'quick':
                         continue
                     inp = {f'{c}{i}': 'real' for i in range(k) for c in 'ab'}
-                    S.append(Scenario(f'rows/{k}/{col}/{"desc" if rev else "asc"}/{mode}', RC_SRC, inp, consts={'k': k, 'col': col, 'reverse': rev, 'mode': mode}, preamble=RC_PRE,
+                    other = 'b' if col == 'a' else 'a'
+                    distinct = [f'v.{other}{p} != v.{other}{q}' for p in range(k) for q in range(p + 1, k)]   # rows stay distinguishable when the sort column has ties
+                    S.append(Scenario(f'rows/{k}/{col}/{"desc" if rev else "asc"}/{mode}', RC_SRC, inp, distinct, consts={'k': k, 'col': col, 'reverse': rev, 'mode': mode}, preamble=RC_PRE,
                                       what=f'RowCollector with {k} rows sorted by {col}' + (' reversed' if rev else ''), samples=2))
     for lens in itertools.chain.from_iterable(itertools.product(range(0, 4), repeat=r) for r in (1, 2, 3)):
         inp = {f'e{i}_{j}': 'real' for i, n in enumerate(lens) for j in range(n)}
